@@ -288,9 +288,12 @@ class AsyncTLSStreamTransport(AsyncStreamTransport):
             except _ssl_module.SSLWantReadError:
                 try:
                     # Flush any pending writes first
-                    async with self.__transport_send_lock:
-                        if self._write_bio.pending:
-                            await self._transport.send_all(self._write_bio.read())
+                    # (the send lock is only taken if there is something to send: a reader must not wait behind a writer
+                    # which is itself waiting for the peer to read)
+                    if self._write_bio.pending:
+                        async with self.__transport_send_lock:
+                            if self._write_bio.pending:
+                                await self._transport.send_all(self._write_bio.read())
 
                     async with self.__transport_recv_lock:
                         await self.__incoming_reader.readinto(self._read_bio)
@@ -307,9 +310,10 @@ class AsyncTLSStreamTransport(AsyncStreamTransport):
                 raise
             else:
                 # Flush any pending writes first
-                async with self.__transport_send_lock:
-                    if self._write_bio.pending:
-                        await self._transport.send_all(self._write_bio.read())
+                if self._write_bio.pending:
+                    async with self.__transport_send_lock:
+                        if self._write_bio.pending:
+                            await self._transport.send_all(self._write_bio.read())
 
                 return result
 
